@@ -105,6 +105,11 @@ CHECKS = {
         technique="TLA+ semantics of PDL patterns (PDLMatch.tla: match relation with shared variables and result-of constraints, rewrite step; TLC explores every application order to the fixpoints) used by TLC to judge the payloads produced by the two real paths",
         text="Generated single-root PDL patterns (nested result-of producers incl. diamonds, shared value/attribute/type variables, constant attributes incl. falsy values, typed operands; erase / replace-with-operand / replace-with-new-op) are applied to generated payloads (instantiations of the pattern with one perturbation each plus noise) by apply-pdl and by convert-pdl-to-pdl-interp + apply-pdl-interp; TLC decides that both results are equal and diagnoses against the model's fixpoints which path deviates.",
         note="Trusted: PDLMatch.tla as PDL's meaning (only needed for diagnosis/coverage; the verdict is the equality of the two real results); canonical encoding of payloads. Native constraints, variadic operand/result groups and multi-pattern modules are not generated. Three defects repaired, three open findings."),
+    "C22": dict(
+        category="translation_validation", design_ref="DESIGN.md §4 C22",
+        technique="TLA+ RV32IM instruction-level model (RV.tla) executed by TLC on the parsed assembly emitted by the real pipeline, next to the source under Machine.tla, on the same inputs; calling-convention clauses (results in a0/a1, callee-saved registers and sp restored)",
+        text="Generated i32 programs (arith incl. division, shifts and boundary constants, all cmpi predicates observed through index casts, scf.for with iter_args and dynamic bounds, up to >= 10 live values) are compiled by the documented RISC-V pipeline and printed as assembly; TLC runs source and instructions on boundary/random inputs. RISC-V snippets (random, plus the grid of every R-/I-type op on boundary constants and immediates) are printed before and after canonicalize alone and both executed under RV.tla.",
+        note="Trusted: RV.tla / Machine.tla; the assembly parser (harness/drivers/c22.py). Integer only: floating point (f32/f64 constants, fcvt, fadd..) is not modelled, so float lowering defects are out of reach. Programs the pipeline refuses (unsupported ops, out of registers, si12 immediates rejected by canonicalize) are outside the property and counted in the evidence. One defect repaired (cmpi predicate table)."),
     "C19": dict(
         category="exploration", design_ref="DESIGN.md §3.7, §4 C19",
         technique="TLA+ register-file execution of allocated blocks (RegAlloc.tla: the register file remembers which value each register holds) evaluated by TLC on the assignments produced by the real allocators",
